@@ -48,8 +48,23 @@ Example C20_example :
   create_temp_dir 10 (fun i => if i =? 3 then Some ENOENT else None) [1; 2; 4] = Failed ENOENT [1; 2; 4].
 Proof. split; reflexivity. Qed.
 
+(* "each run": a run started through main() without --tempdir creates the lowest free tmpN whatever
+   directory the same Lithium object used before (`before`), and with --tempdir creates nothing *)
+Theorem C20_each_main_fresh :
+  forall before fs fuel, (length fs < fuel)%nat ->
+    exists n, main_temp_dir fuel (fun _ => None) fs before None = (Some (TNum n), Dir n (n :: fs)) /\
+              1 <= n /\ mem_z n fs = false /\ (forall m, 1 <= m < n -> mem_z m fs = true).
+Proof. exact main_fresh. Qed.
+
+Theorem C20_given_dir_creates_nothing :
+  forall before fs fuel fault p,
+    main_temp_dir fuel fault fs before (Some p) = (Some (TGiven p), Dir 0 fs).
+Proof. exact main_given. Qed.
+
 Print Assumptions C20_lowest_free.
 Print Assumptions C20_concurrent.
 Print Assumptions C20_concurrent_progress.
 Print Assumptions C20_fault_stops.
 Print Assumptions C20_terminates.
+Print Assumptions C20_each_main_fresh.
+Print Assumptions C20_given_dir_creates_nothing.
